@@ -127,8 +127,12 @@ k("ended_implies_terminal_values", *BV, ["C18"], "contract", function="bevy anim
 k("animate_two_frames_lemma", *BV, ["C18"], "lemma", function="bevy animate (per-entity loop body), two consecutive frames",
   clause="at most one Ended event; position >= duration at the start of a frame => that frame reports Ended; Ended is absorbing and frozen; never under infinite duration", assumes=[A6])
 k("animator_api_contract", *BV, ["C18"], "contract", function="Animator::{new,default,with_timeline,reset,as_disabled,state}", clause="constructors start enabled at zero in None; reset rewinds and keeps the timeline")
-k("select_animation_step_contract", *BV, ["C19"], "contract", function="bevy select_animation (per-entity loop body)",
-  clause="same key => nothing restarts; new key => clone of that key's timeline started from the component's current values, animator reset; key without timeline => timeline None, component untouched", assumes=[A6])
+# One harness per (key 0 has a timeline, key 1 has a timeline): together the whole boolean domain.  As ONE harness over
+# symbolic has0/has1 the Vec behind the shim HashMap has a symbolic length (4.6 M variables; CaDiCaL 25 s .. >400 s from
+# run to run, which timed out on a fresh restore); with the two flags concrete each case is 0.23 M variables, < 30 s.
+for _sfx, _what in (("h00", "neither key has a timeline"), ("h01", "only key 1 has a timeline"), ("h10", "only key 0 has a timeline"), ("h11", "both keys have a timeline")):
+    k("select_animation_step_contract_" + _sfx, *BV, ["C19"], "contract", function="bevy select_animation (per-entity loop body)",
+      clause="[" + _what + "; current key, previous key, animator state/position/presence symbolic] same key => nothing restarts; new key => clone of that key's timeline started from the component's current values, animator reset; key without timeline => timeline None, component untouched", assumes=[A6])
 k("chain_animations_step_contract", *BV, ["C19"], "contract", function="bevy chain_animations (per-event loop body)",
   clause="key moves to next[key] iff the event is Ended for this entity and the chain has an entry; else unchanged", assumes=[A6])
 k("finding_chain_ignores_which_animator_ended", *BV, ["C19"], "finding", function="bevy chain_animations (per-event loop body)",
